@@ -717,14 +717,17 @@ fn main() {
     }
 
     // 3. regime edges x logic x hint
-    let mut edges: Vec<usize> = vec![99, 100, 101, 49_999, 50_000, 99_999, 100_000, 100_001, 200_000];
+    // (the switch at 800 000 keys is in the quick tier too, with two hints instead of four)
+    let mut edges: Vec<usize> = vec![99, 100, 101, 49_999, 50_000, 99_999, 100_000, 100_001, 200_000, 799_999, 800_000, 800_001];
     if thorough {
-        edges.extend_from_slice(&[199_999, 399_999, 400_000, 799_999, 800_000, 800_001, 1_500_000]);
+        edges.extend_from_slice(&[199_999, 399_999, 400_000, 1_500_000]);
     }
     for &n in edges.iter().filter(|&&n| n <= lim.max_n) {
         for logic in 0..4 {
             let vs: Vec<usize> = variants_of(logic).into_iter().filter(|&v| VARIANTS[v].int_keys || n <= 200_000).collect();
-            let hs: &[Hint] = if n >= 100_000 && n <= 800_000 {
+            let hs: &[Hint] = if !thorough && n >= 799_999 {
+                &[Hint::Absent, Hint::Exact]
+            } else if n >= 100_000 && n <= 800_000 {
                 &[Hint::Absent, Hint::Exact, Hint::Tenth, Hint::Times8]
             } else if n > 800_000 {
                 &[Hint::Absent, Hint::Tenth]
